@@ -1,0 +1,14 @@
+//go:build verif
+
+package ledgerstore
+
+import "github.com/uptrace/bun"
+
+// NewStoreForVerif builds a Store over a caller-supplied database handle so
+// that the verification harness can point it at a recording SQL driver.
+func NewStoreForVerif(db *bun.DB, bucketName, ledgerName string) *Store {
+	return &Store{
+		bucket: &Bucket{name: bucketName, db: db},
+		name:   ledgerName,
+	}
+}
